@@ -1,7 +1,93 @@
-(** C01 - Match soundness.  Only statements, [exact], and Print Assumptions. *)
-From Sheens Require Import Spec.Contain.
+(** C01 - Match soundness: each result extends the given bindings and fits
+    the message.  Only statements, [exact], and Print Assumptions.
 
+    [c01_ok p f bs0 bs'] (Spec/Contain.v, written from the documentation) is
+    the property for one returned binding set [bs']: every given binding is
+    present unchanged; every other key is a variable of the pattern or the
+    plain counterpart of one of its inequality variables; the anonymous
+    variable is never bound; the pattern instantiated by [bs'] [fits] the
+    message under the documented partial-matching rules (scalars equal,
+    every pattern key present with a contained value, array elements
+    matched by distinct message elements, inequality variables in the stated
+    numeric relation).  [match_] is the model of match.Match (Model/Match.v),
+    [ord] any iteration order the runtime may choose for the maps involved.
+
+    Hypotheses: [var_free] = the quantifier's "no string inside the message
+    or the bound values begins with '?'"; [wf_json f] and [nodup_keys] are
+    true of every Go map; [no_anon_counterpart p] excludes the one pattern
+    shape ("?<=" etc.: an inequality on the anonymous variable) for which
+    the conjunct "the anonymous variable is never bound" is false (see
+    [C01_planned_statement_refuted]).  No fragment hypothesis is needed:
+    outside the supported fragment the matcher returns an error, which the
+    premise [= Ok bss] excludes. *)
+From Sheens Require Import Spec.Contain Proofs.OrderBase Proofs.SndMatchSound Proofs.SndMatchFuel.
+
+Theorem C01_match_sound :
+  forall ord, perm_oracle ord ->
+  forall fuel p f bs0 bss bs',
+    var_free f = true -> var_free_bs bs0 = true -> wf_json f = true ->
+    nodup_keys (map fst bs0) = true -> no_anon_counterpart p = true ->
+    match_ ord fuel p f bs0 = Ok bss -> In bs' bss -> c01_ok p f bs0 bs' = true.
+Proof. exact match_sound. Qed.
+Print Assumptions C01_match_sound.
+
+(** without the hypothesis on the pattern: all conjuncts but the one about
+    the anonymous variable *)
+Theorem C01_match_sound_any_pattern :
+  forall ord, perm_oracle ord ->
+  forall fuel p f bs0 bss bs',
+    var_free f = true -> var_free_bs bs0 = true -> wf_json f = true ->
+    nodup_keys (map fst bs0) = true ->
+    match_ ord fuel p f bs0 = Ok bss -> In bs' bss ->
+    c01_given_kept bs0 bs' && c01_only_bindable p bs0 bs' && fits bs0 bs' p f = true.
+Proof. exact match_sound_but_anon. Qed.
+Print Assumptions C01_match_sound_any_pattern.
+
+(** the recursion fuel of the model is no restriction: [match_bound] always
+    suffices and any larger fuel gives the same result *)
+Theorem C01_fuel_enough :
+  forall ord, perm_oracle ord ->
+  forall p f bs0,
+    var_free f = true -> var_free_bs bs0 = true ->
+    match_ ord (match_bound p f bs0) p f bs0 <> Fuel.
+Proof. exact match_fuel_enough. Qed.
+Print Assumptions C01_fuel_enough.
+
+Theorem C01_fuel_irrelevant :
+  forall ord, perm_oracle ord ->
+  forall p f bs0 fuel,
+    var_free f = true -> var_free_bs bs0 = true ->
+    match_bound p f bs0 <= fuel ->
+    match_ ord fuel p f bs0 = match_ ord (match_bound p f bs0) p f bs0.
+Proof. exact match_fuel_irrelevant. Qed.
+Print Assumptions C01_fuel_irrelevant.
+
+(** returned binding sets stay key-sorted (the model's canonical form) *)
+Theorem C01_results_sorted :
+  forall ord, perm_oracle ord ->
+  forall fuel p f bs0 bss bs',
+    var_free f = true -> var_free_bs bs0 = true -> sorted_keys bs0 = true ->
+    match_ ord fuel p f bs0 = Ok bss -> In bs' bss -> sorted_keys bs' = true.
+Proof. exact match_sorted. Qed.
+Print Assumptions C01_results_sorted.
+
+(** the statement as first planned (without the two added hypotheses) is
+    false of the faithful model; the witnesses are in Proofs/SndMatchSound.v *)
+Theorem C01_planned_statement_refuted : ~ match_sound_planned_statement.
+Proof. exact match_sound_planned_refuted_anon. Qed.
+Print Assumptions C01_planned_statement_refuted.
+
+(** non-vacuity: the README example meets the hypotheses and binds *)
 Example C01_nonvacuous_readme :
   Match (JObj [("likes", JStr "?likes")]) (JObj [("likes", JStr "tacos")]) []
   = Ok [[("?likes", JStr "tacos")]].
 Proof. vm_compute. reflexivity. Qed.
+
+Example C01_nonvacuous_hyps :
+  let p := JObj [("a", JArr [JStr "?x"; JNum 4]); ("n", JStr "?<n")] in
+  let f := JObj [("a", JArr [JNum 4; JStr "t"]); ("n", JNum 8); ("z", JNull)] in
+  let bs0 := [("?<n", JNum 12)] in
+  var_free f = true /\ var_free_bs bs0 = true /\ wf_json f = true /\
+  nodup_keys (map fst bs0) = true /\ no_anon_counterpart p = true /\
+  Match p f bs0 = Ok [[("?<n", JNum 12); ("?n", JNum 8); ("?x", JStr "t")]].
+Proof. vm_compute. repeat split; reflexivity. Qed.
